@@ -245,3 +245,48 @@ func scenarioLaggards(compact bool) []caseOut {
 	}
 	return a.outs(tags)
 }
+
+// scenarioLoneLaggard, n=4, height 0: operator 1 (round-1 leader) is Byzantine. It proposes V to everybody; operators 3 and 4
+// (with the Byzantine prepare) prepare and commit V and see each other's commits (two, no quorum); operator 2 accepts the
+// proposal but the prepares reach it only after its timer fired. The Byzantine operator aggregates the commits of 3 and 4 and
+// its own into a decided certificate and hands it to 3 and 4 only, then stays silent. 3 and 4 are decided: they neither time
+// out nor re-broadcast the certificate they accepted; operator 2 alone is fewer than f+1, so its round-changes never pull
+// them, and it can never form a quorum. No compaction involved.
+func scenarioLoneLaggard() []caseOut {
+	env := getEnv(4)
+	h := specqbft.Height(0)
+	a := newDirected(env, h, []spectypes.OperatorID{1}, false)
+	V := valueBytes(1)
+	rV := sha256.Sum256(V)
+	a.startAll([][]byte{V, V, V, V})
+	n2, n3, n4 := a.node(2), a.node(3), a.node(4)
+	a.sendDirect(enc(a.f.proposal(1, 1, V, nil, nil)), []*SimNode{n2, n3, n4})
+	a.sendDirect(enc(a.f.prepare(1, 1, rV)), []*SimNode{n3, n4})
+	for _, nd := range []*SimNode{n3, n4} {
+		a.deliverWhere(nd, func(m *specqbft.SignedMessage) bool { return isT(specqbft.PrepareMsgType, 1)(m) && m.Signers[0] != 2 })
+	}
+	for _, nd := range []*SimNode{n3, n4} {
+		a.deliverWhere(nd, isT(specqbft.CommitMsgType, 1))
+	}
+	a.timeoutOn(n2) // operator 2's timer fires before the prepares reach it
+	base := &specqbft.Message{MsgType: specqbft.CommitMsgType, Height: h, Round: 1, Identifier: env.identifier, Root: rV}
+	cert := env.sign(1, base)
+	for _, w := range a.wire {
+		if w.Msg != nil && isT(specqbft.CommitMsgType, 1)(w.Msg) && w.Msg.Message.Root == rV && uint64(len(cert.Signers)) < env.q {
+			_ = cert.Aggregate(cloneMsg(w.Msg))
+		}
+	}
+	tags := []string{"case/directed", "directed/lone-laggard"}
+	if uint64(len(cert.Signers)) < env.q {
+		return a.outs(append(tags, "directed/lone-laggard-not-applicable"))
+	}
+	cert.FullData = V
+	a.sendDirect(enc(cert), []*SimNode{n3, n4})
+	used, why := a.continuation()
+	if used < 0 && why != "cutoff" {
+		a.violate("C07/no-decision-within-f+3-rounds"+a.wedgeCause()+a.suffix(), "n=4, operator 1 Byzantine then silent: operators 3 and 4 decided through a certificate only they received and neither time out nor re-broadcast it; operator 2 alone (fewer than f+1) never pulls them and never forms a quorum")
+	} else {
+		tags = append(tags, fmt.Sprintf("c07/lone-laggard-scenario-decided-after-%d-rounds", used))
+	}
+	return a.outs(tags)
+}
